@@ -17,13 +17,19 @@ class C06(Prop):
     id = "C06"
     title = "Uplink NAS protection is correct over any message history"
     lean_module = "Stgutg.Props.C06"
-    extra_modules = ["Stgutg.Props.Glue.tglib_NASEncode", "Stgutg.Props.Glue.tglib_EncodeNasPduWithSecurity", "Stgutg.Proofs.GenTieCount", "Stgutg.Gen.PureSelftest"]
-    gen = ["tables", "pure-count", "pure-selftest", "procs"]
-    theorems = ["Stgutg.Props.GluePinned." + t for t in [
-        # the glue functions this property depends on are still the text the models were written from (gen procs)
-        "tglib_NASEncode", "tglib_EncodeNasPduWithSecurity"]] + [
+    extra_modules = ["Stgutg.Proofs.GenTieCount", "Stgutg.Gen.PureSelftest", "Stgutg.Proofs.GenTieNas", "Stgutg.Gen.PureSelftestRich"]
+    gen = ["tables", "pure-count", "pure-selftest", "pure-nasprot"]
+    theorems = [
         # tie by translation: the eight methods of security.Count regenerated from counter.go ARE the hand model
         "Stgutg.Proofs.GenTie.Count.Count_methods_eq",
+        # tie by translation: the NAS protection functions regenerated from security.go / packet.go / decode.go ARE the hand models
+        "Stgutg.Proofs.GenTie.Nas.NASEncode_eq",
+        "Stgutg.Proofs.GenTie.Nas.EncodeNasPduWithSecurity_eq",
+        "Stgutg.Proofs.GenTie.Nas.NASEncode_noctx",
+        "Stgutg.Proofs.GenTie.Nas.NASEncode_plain_fails",
+        "Stgutg.Proofs.GenTie.Nas.EncodeNasPduWithSecurity_refused",
+        "Stgutg.Proofs.GenTie.Nas.NASEncode_nil_ue",
+        "Stgutg.Proofs.GenTie.Nas.NASEncode_nil_msg",
         "Stgutg.Props.C06.counter_ops",
         "Stgutg.Props.C06.sqn_overflow",
         "Stgutg.Props.C06.step_protects",
@@ -55,7 +61,8 @@ class C06(Prop):
             "operation on boundary windows, random windows and a strided pass over all 32 bits (thorough: every one of the 2^24 "
             "values) compared as a digest against the model and against the arithmetic meaning. non-trivial = accepted history "
             "with at least one protected message, or a sweep; distinct by op line")
-    trusted_base = ["TIE BY TRANSLATION (gen pure-count, harness/cmd/gen/pure*.go -> lean/Stgutg/Gen/PureCount.lean, regenerated from the source text on every run): security.Count: maskTo24Bits, Get, AddOne, SQN, SetSQN, Overflow, SetOverflow, Set (pointer receiver threaded as a value). The theorems GenTie.Count.Count_methods_eq prove generated definition = hand model for ALL inputs, so a change of the Go text changes the generated definition and the theorem stops checking, whatever input would show it. Trusted here instead of sampling: the translator's grammar and its runtime Gen/PureRt.lean (Go's fixed-width arithmetic, index / slice panics, value semantics of slices under the translator's no-alias check, go/types constant evaluation); a construct outside the grammar fails closed (TRANSLATOR-FAILED file:line); the translator and its runtime are themselves checked against the Go compiler on every run: gen pure-selftest translates harness/cmd/gen/pureselftest/fns.go and writes the results of EXECUTING the compiled functions beside the translation (Gen/PureSelftest.lean: 97 calls incl. wrap-around, MinInt / -1, division by zero, index / slice panics, shadowing, break / continue, receiver mutation, as kernel-checked equalities)",
+    trusted_base = ["TIE BY TRANSLATION of the NAS protection layer (gen pure-nasprot, harness/cmd/gen/pure*.go incl. pure_nas.go -> lean/Stgutg/Gen/PureNasProt.lean, regenerated from the source text on every run): tglib.NASEncode, tglib.NASDecode, tglib.EncodeNasPduWithSecurity, tglib.GetNasPdu, nas.NewMessage, nas.GetSecurityHeaderType, with the methods of security.Count taken from Gen/PureCount.lean. Theorems Proofs.GenTie.Nas.NASEncode_eq (for EVERY UE context, message header, plain octets and both flags: generated = Model.NasProtect.nasEncode, state and outcome), EncodeNasPduWithSecurity_eq, plus what the code does outside the hand model's domain (NASEncode_noctx, NASEncode_plain_fails, EncodeNasPduWithSecurity_refused, nil ue / nil msg). Trusted here instead of sampling: the extended grammar of the translator (described at the top of harness/cmd/gen/pure.go): *RanUeContext as state that is returned with every outcome incl. error and panic; pointers as Option with nil guards; structs trimmed to the fields the group selects (a struct handed to a library call keeps all its plain fields, the rest is one opaque component); library calls (msg.PlainNasEncode, msg.PlainNasDecode, security.NASEncrypt, security.NASMacCalculate, reflect.DeepEqual) as fields of the record Lib, ASSUMED to be functions of the VALUES of their operands with the declared effects only (NASEncrypt: payload overwritten IN PLACE = a rebinding of the payload variable, accepted only because the translator's alias classes show that no other live variable can share its storage; PlainNasDecode: receiver replaced, octets read only; every returned slice is fresh; PlainNasEncode returns non-nil octets when it returns no error); the tie instantiates Lib with the hand model's own parameters (Prims through Model.NasAlg.nasEncrypt/nasMac; ARBITRARY plain encoder / decoder / DeepEqual; PlainNasDecode panics on no octets). NOT described by the tie, as by the hand model: what NASDecode / GetNasPdu leave in the caller's octets (they decipher in place inside the received NGAP message), messages printed, nil-ness of returned slices. x[a:b] is accepted only where the next statement forces b <= len(x) (payload[0:6]; payload[6]), see checkRich in pure_nas.go; the extended grammar and its runtime are checked against the Go compiler on every run: gen pure-selftest also translates harness/cmd/gen/pureselftest/rich.go (every new construct, with stand-in library functions transcribed to Lean) and writes the outcomes of EXECUTING the compiled functions beside the translation (Gen/PureSelftestRich.lean: 549 calls, 146 of them panics, each with the object behind the pointer parameter as it is when the call ends or panics, incl. a slice left half overwritten by a failing in-place call, as kernel-checked equalities)",
+                    "TIE BY TRANSLATION (gen pure-count, harness/cmd/gen/pure*.go -> lean/Stgutg/Gen/PureCount.lean, regenerated from the source text on every run): security.Count: maskTo24Bits, Get, AddOne, SQN, SetSQN, Overflow, SetOverflow, Set (pointer receiver threaded as a value). The theorems GenTie.Count.Count_methods_eq prove generated definition = hand model for ALL inputs, so a change of the Go text changes the generated definition and the theorem stops checking, whatever input would show it. Trusted here instead of sampling: the translator's grammar and its runtime Gen/PureRt.lean (Go's fixed-width arithmetic, index / slice panics, value semantics of slices under the translator's no-alias check, go/types constant evaluation); a construct outside the grammar fails closed (TRANSLATOR-FAILED file:line); the translator and its runtime are themselves checked against the Go compiler on every run: gen pure-selftest translates harness/cmd/gen/pureselftest/fns.go and writes the results of EXECUTING the compiled functions beside the translation (Gen/PureSelftest.lean: 97 calls incl. wrap-around, MinInt / -1, division by zero, index / slice panics, shadowing, break / continue, receiver mutation, as kernel-checked equalities)",
                     "crypto/aes, cipher.NewCTR, github.com/aead/cmac are parameters of the theorems (Prims); the receiver theorem "
                     "assumes the CTR primitive is a keystream cipher (ctr k iv m = m xor stream k iv |m|), shown satisfiable; "
                     "Crypto/Aes.lean instantiates the primitives for the comparator only",
